@@ -1,0 +1,12 @@
+//go:build verif
+
+package verifhooks
+
+import (
+	"regexp/syntax"
+
+	"github.com/sourcegraph/zoekt/internal/syntaxutil"
+)
+
+// RegexpString is internal/syntaxutil.RegexpString (the printer zoekt uses for every query regexp).
+func RegexpString(re *syntax.Regexp) string { return syntaxutil.RegexpString(re) }
